@@ -6,6 +6,12 @@ ALL = ["C%02d" % i for i in range(1, 21)]
 
 # property id -> dict(category, text, note, technique, design_ref)
 CLAIMED = {
+    "C19": dict(
+        category="other",
+        text="Path and structure rules on the ElastiCache client: possibly-undefined analysis with exception edges (an ERROR reply must surface as the memcached error), the coupled reset of clients / hasher / failing and dead sets on every path of reconfigure_nodes before any advertised node is added, every advertised node added unconditionally and normalised, replaced clients and the discovery client closed on all exits, host/port selection by use_vpc, config command and terminator wiring, and the C03 accumulate-then-search rules for the reader that delivers the reply. Routing of key corpora after reconfiguration sequences is a runtime statement.",
+        note="Trusted: CPython ast; path interpreter; C11/C12 for routing once hasher nodes == clients keys. The rule models the reset-then-add structure of reconfigure_nodes; an incremental implementation would need a different rule.",
+        technique="definite-assignment and coupled-state path analysis; structural wiring rules",
+    ),
     "C15": dict(
         category="other",
         text="The serializer dispatch is evaluated abstractly over 13 exact-type classes: encoder and flags chosen by the writer, decoder chosen by the reader for those flags with and without the COMPRESSED bit, whether the pair is a type-preserving inverse pair, that the serialized form derives from the value and is bytes; flags are distinct single bits below 2**16; CompressedSerde's decision is evaluated over all 18 orderings of (len vs threshold, threshold vs 0, compressed vs original) for 'flag iff compressed form stored' and 'never store the larger form', and decompress iff the bit is set; pickle protocol wiring by def-use. Library round trips (pickle, codecs, zlib) are trusted.",
